@@ -309,7 +309,16 @@ func c18W4(c *ev.Ctx) {
 	r := c.R
 	tree := &realTree{bt: structures.NewWritableBTreeV2(4096)}
 	mc := rebalancing.NewMetricsCollector()
-	sr := rebalancing.NewSmartRebalancer(tree, rebalancing.WithReevalInterval(100*time.Microsecond))
+	// half of the cases: a detector whose sliding window is a few milliseconds, so that events
+	// expire while readers are active (the default window of 5 minutes never elapses in a run)
+	window := []time.Duration{0, 0, 2 * time.Millisecond, 10 * time.Millisecond}[r.Intn(4)]
+	opts := []rebalancing.SmartRebalancerOption{rebalancing.WithReevalInterval(100 * time.Microsecond)}
+	var det *rebalancing.WorkloadDetector
+	if window > 0 {
+		det = rebalancing.NewWorkloadDetector(rebalancing.WithWindowSize(window), rebalancing.WithMinSampleSize(1), rebalancing.WithCapacity(64))
+		opts = append(opts, rebalancing.WithDetector(det))
+	}
+	sr := rebalancing.NewSmartRebalancer(tree, opts...)
 	ctx, cancel := context.WithCancel(context.Background())
 	defer cancel()
 	if err := sr.Start(ctx); err != nil {
@@ -331,6 +340,15 @@ func c18W4(c *ev.Ctx) {
 			defer wg.Done()
 			rr := seeds[w]
 			for i := 0; i < perWorker; i++ {
+				if det != nil && i%40 == 39 {
+					time.Sleep(window + window/2) // let the recorded events leave the window
+					// readers only, right after the expiry
+					_ = det.ExtractFeatures()
+					_, _, _ = det.GetStats()
+					_ = det.DetectWorkloadType()
+					_, _ = sr.Evaluate()
+					continue
+				}
 				switch rr.Intn(6) {
 				case 0:
 					_ = sr.RecordOperation(rebalancing.OperationType(rr.Intn(3)))
@@ -395,7 +413,7 @@ func c18W4(c *ev.Ctx) {
 	}
 	c.Count("W4:operations_in_linearizability_histories", int64(len(ops)))
 	c.Count("W4:workers", int64(workers))
-	c.Case(fmt.Sprintf("W4|workers%d|ops%d", workers, perWorker), true)
+	c.Case(fmt.Sprintf("W4|workers%d|ops%d|window%v", workers, perWorker, window), true)
 }
 
 // ---- W5: FileWriter with every rebalancing option, attribute churn, Close, census
@@ -456,7 +474,7 @@ var C18 = &ev.Property{
 	ID:    "C18",
 	Level: "exploration",
 	Race:  true,
-	Rule: "all workloads run in a binary built with the race detector; every detector report is a violation keyed by the first library frames of its two stacks. W1: 2-32 goroutines, each writing its own file from its own history and reading it back (shared state reached: buffer pool, datatype registry), compared with the sequential run; W2: 2-16 readers with their own Open handle on one file (corpus or library-written), three complete dumps each, compared with the sequential dump; W3: one WritableBTreeV2 with lazy + incremental rebalancing (ticker 1 us - 1 ms, budgets 1 us - 10 ms, with and without progress callback), ONE foreground goroutine doing 2000 (thorough 6000) inserts, lazy deletes across the batch threshold, statistics and progress queries, stop and re-enable; every stop must return, afterwards no library goroutine may be left (bounded wait 4 s); W4: SmartRebalancer (re-evaluation every 100 us) over a real B-tree, 2-8 goroutines calling RecordOperation/Evaluate/GetStats/GetMetrics plus MetricsCollector.RecordOperation/Snapshot whose history is checked for linearizability against a counter model (porcupine), Stop, restart, cancel through the context, goroutine census; W5: FileWriter created with each rebalancing configuration, an attribute history with runtime toggles, background mode left running or not, Close, goroutine census. " +
+	Rule: "all workloads run in a binary built with the race detector; every detector report is a violation keyed by the first library frames of its two stacks. W1: 2-32 goroutines, each writing its own file from its own history and reading it back (shared state reached: buffer pool, datatype registry), compared with the sequential run; W2: 2-16 readers with their own Open handle on one file (corpus or library-written), three complete dumps each, compared with the sequential dump; W3: one WritableBTreeV2 with lazy + incremental rebalancing (ticker 1 us - 1 ms, budgets 1 us - 10 ms, with and without progress callback), ONE foreground goroutine doing 2000 (thorough 6000) inserts, lazy deletes across the batch threshold, statistics and progress queries, stop and re-enable; every stop must return, afterwards no library goroutine may be left (bounded wait 4 s); W4: SmartRebalancer (re-evaluation every 100 us; in half of the cases with a detector whose sliding window is 2 or 10 ms, with idle phases that let events expire followed by reader-only calls) over a real B-tree, 2-8 goroutines calling RecordOperation/Evaluate/GetStats/GetMetrics plus MetricsCollector.RecordOperation/Snapshot whose history is checked for linearizability against a counter model (porcupine), Stop, restart, cancel through the context, goroutine census; W5: FileWriter created with each rebalancing configuration, an attribute history with runtime toggles, background mode left running or not, Close, goroutine census. " +
 		"non-trivial: every case; distinct = (workload, parameters).",
 	Assumptions: []string{"the race detector generalises over orderings of the accesses it observed (happens-before), not over paths that were not executed"},
 	Cases: func(tier string) int {
